@@ -58,6 +58,20 @@ R_SCOPES = {
         ],
         "presets": [(8, 0, 0), (8, 3, 0), (16, 4, 0), (4000, 150, 32)],
     },
+    "r_langcase": {
+        # written by the generic serializer / reference encoder only and *parsed* by both
+        # integrations: rdflib itself treats tags that differ in case as equal terms
+        "triples": [
+            (AX, AP, L("colour", "en-GB")),
+            (AX, AP, L("colour", "en-gb")),
+            (AX, AP, L("colour", "EN-GB")),
+            (AX, AP, L("colour", "en")),
+            (AX, AY, L("colour", "en-GB")),
+            (AX, AP, L("color", "en-GB")),
+        ],
+        "presets": [(8, 0, 0), (8, 1, 0), (8, 1, 0), (4000, 150, 32)],
+        "parse_only": True,
+    },
     "r_dtpressure": {
         # one datatype per statement: five distinct ones are needed to evict twice in a row
         "triples": [(AX, AP, L("x", None, f"http://d/{i}")) for i in range(6)],
@@ -95,6 +109,8 @@ def jobs(maxlen: int, parts: int = 2, entry_len: int = 2) -> list:
     out = [("R", "S", kind, cls, pi, 0, 0, 0) for kind in RT.SCALE_KINDS for cls in DR.CLASSES
            for pi in range(len(RT.SCALE_PRESETS))]
     for scope, sc in R_SCOPES.items():
+        if sc.get("parse_only"):
+            continue
         L = max(maxlen, sc.get("maxlen", 0))
         n = AL.n_sequences(6, L)
         if sc.get("restricted"):
